@@ -164,7 +164,19 @@ def wrapper_random(run, prop, classes, n, all_rejects):
     handle_rejects(run, prop, rejects, tp, classes, "free-running", all_rejects)
 
 
-def wrapper_pipeline(run, prop, names, negs, classes, random_n=0, extra_invs=None):
+def handoff_race(run, prop, classes, all_rejects):
+    """Real-time schedules the bubble cannot run: a waiter gives up while unblock() holds the limiter mutex mid hand-off."""
+    out, _ = run.go("^TestHandoffGiveUpRace$", env={"VERIF_N": 6 if run.tier == "thorough" else 2}, timeout=600)
+    tp = os.path.join(out, "handoff_trace.ndjson")
+    rejects, total = validate_sharded(run, "WrapperTrace", "Wrapper_trace.cfg", tp)
+    run.events += total
+    n = sum(1 for line in open(tp) if '"ev":"Reset"' in line)
+    run.traces += n
+    run.extra["handoff_giveup_race_scenarios"] = n
+    handle_rejects(run, prop, rejects, tp, classes, "handoff-race", all_rejects)
+
+
+def wrapper_pipeline(run, prop, names, negs, classes, random_n=0, extra_invs=None, handoff=False):
     """mc (+ graph emission) of the implementation-shaped models, negs, replay of every transition on the
     real limiters, validation of the recorded executions against the contract WrapperTrace.
     Rejections whose class is in `classes` are violations of `prop`."""
@@ -219,6 +231,8 @@ def wrapper_pipeline(run, prop, names, negs, classes, random_n=0, extra_invs=Non
             raise Machinery("dead driver: only %d of %d replayed steps followed the model for %s" % (conf, steps, prefix))
     if random_n:
         wrapper_random(run, prop, classes, random_n, all_rejects)
+    if handoff:
+        handoff_race(run, prop, classes, all_rejects)
     other = {}
     for rj in all_rejects:
         if rj["class"] not in classes:
@@ -241,7 +255,7 @@ def c10(run):
     th = run.tier == "thorough"
     names = ["b3", "b3f", "d2", "q2", "q3s"] + (["b3p", "b3l2", "d3", "d3f", "q3", "q3l", "q3n", "b4", "q4", "q4t"] if th else [])
     wrapper_pipeline(run, "C10", names, ["b3-asdelivered-lostwake", "b3f-asdelivered-lostwake", "q3-asdelivered-lostwake", "q3-unbuffered-lostwake"],
-                     {"lostwake"}, random_n=2000 if th else 300, extra_invs=LIVE)
+                     {"lostwake"}, random_n=2000 if th else 300, extra_invs=LIVE, handoff=True)
 
 
 def c11(run):
@@ -254,7 +268,7 @@ def c11(run):
 def c12(run):
     th = run.tier == "thorough"
     names = ["q2", "q3s", "q3"] + (["q3l", "q4t", "q4", "q3n"] if th else [])
-    wrapper_pipeline(run, "C12", names, ["q3-asdelivered-backlog"], {"backlog"}, random_n=3000 if th else 500)
+    wrapper_pipeline(run, "C12", names, ["q3-asdelivered-backlog"], {"backlog"}, random_n=3000 if th else 500, handoff=True)
 
 
 def c13(run):
@@ -377,6 +391,19 @@ def c05(run):
             return {"kind": "default", "what": "enforced limit"}
         return None
     limiter_pipeline(run, "C05", mm, rj)
+    # two window-closing completions racing for the enforcement update (real time, bounded wait)
+    out, _ = run.go("^TestEnforceAttack$", timeout=300)
+    run.extra["enforce_attack"] = json.load(open(os.path.join(out, "enforce.json")))
+    tp = os.path.join(out, "enforce_trace.ndjson")
+    rejects, total = validate_sharded(run, "LimiterTrace", "Limiter_trace.cfg", tp)
+    run.events += total
+    run.traces += run.extra["enforce_attack"]["scenarios"]
+    rows = vlib.read_ndjson(tp)
+    for rjx in rejects:
+        q = [x for x in rows if x["trace"] == rjx["trace"] and x["ev"] == "Quiet"]
+        run.report("DefaultLimiter over the %s strategy: two window-closing completions raced; once quiet the strategy enforces %s while the algorithm's estimate is %s" % (
+            q[0].get("strat") if q else "?", json.dumps(rjx["logged"].get("limit")), json.dumps(rjx["logged"].get("est"))),
+            {"quiet": q, "reject": rjx, "rerun": "bin/check C05"}, {"kind": "default", "what": "stale limit after concurrent updates"})
     # the partition share half: exhaustive graph of the Partition contract (SetLimit / add / remove)
     partition_pipeline(run, "C05", lambda kind, m: {"kind": kind, "what": "share"}, only_limits=True)
 
@@ -484,7 +511,7 @@ def partition_stress(run, prop, n):
             kind, bad, sum(1 for x in remaining[:mark] if x["trace"] == bad), len(hist)),
             {"history": hist, "rerun": "VERIF_SEED=%d bin/check %s --tier %s" % (run.seed, prop, run.tier)}, {"kind": kind, "what": "linearisability"})
         remaining = [x for x in remaining if x["trace"] != bad]
-    raise Machinery("more than 6 non-linearisable partition histories; giving up")
+    run.extra["partition_stress_note"] = "stopped after 6 non-linearisable histories"
 
 
 def c03(run):
@@ -840,7 +867,7 @@ def gate_stress(run, prop, n):
             kind, bad, sum(1 for x in remaining[:mark] if x["trace"] == bad), ", NeverOver violated" if r.violation else ""),
             {"history": hist, "rerun": "VERIF_SEED=%d bin/check %s --tier %s" % (run.seed, prop, run.tier)}, {"class": "gate", "kind": kind})
         remaining = [x for x in remaining if x["trace"] != bad]
-    raise Machinery("more than 6 non-linearisable histories; giving up")
+    run.extra["stress_note"] = "stopped after 6 non-linearisable histories"
 
 
 def c01(run):
@@ -863,13 +890,21 @@ def c01(run):
     wrapper_pipeline(run, "C01", ["b3l2", "q2"] + (["q3", "b4", "q4t"] if th else []), [], {"gate"}, random_n=1500 if th else 200)
     # free-running concurrency, linearisability
     gate_stress(run, "C01", 1500 if th else 150)
+    # sequential histories with moving limits (every grant / refusal against busy < limit), all strategy kinds
+    def seq_rj(r, tr):
+        e, g = r.get("expected") or {}, r.get("logged") or {}
+        er, gr = e.get("res") or {}, g.get("res") or {}
+        if isinstance(er, dict) and isinstance(gr, dict) and er.get("ok") != gr.get("ok"):
+            return {"kind": "default", "what": "grant decision"}
+        return None
+    limiter_pipeline(run, "C01", lambda m: {"kind": "default", "what": "grant decision"} if _res_field_differs(m, "ok") else None, seq_rj, graphs=th)
     run.assumptions += ["the bounded real-time wait of the attack executor (30 ms quick, 200 ms thorough) can only miss a detection on an overloaded machine, never raise an alarm",
                         "stress histories depend on the Go scheduler; they are a sample, the attack schedule is deterministic"]
 
 
 def c02(run):
     th = run.tier == "thorough"
-    wrapper_pipeline(run, "C02", ["b3l2", "q3s", "d2", "b2c"] + (["q3", "q3l", "q4t", "b3p", "d3"] if th else []), [], {"conserve"}, random_n=2000 if th else 300)
+    wrapper_pipeline(run, "C02", ["b3l2", "q3s", "d2", "b2c"] + (["q3", "q3l", "q4t", "b3p", "d3"] if th else []), [], {"conserve"}, random_n=2000 if th else 300, handoff=True)
 
     def lim_mm(m):
         return {"kind": "default", "what": "counts"}
